@@ -7,7 +7,8 @@ ROOT = os.path.dirname(os.path.dirname(os.path.abspath(__file__)))
 sys.path.insert(0, ROOT)
 from tools.mut import run_mutant
 
-MUTANTS = json.load(open(os.path.join(ROOT, 'tools', 'mutants.json')))
+import glob
+MUTANTS = {os.path.basename(f)[:-5]: json.load(open(f)) for f in sorted(glob.glob(os.path.join(ROOT, 'tools', 'mutants', '*.json')))}
 
 
 def one(args):
